@@ -171,7 +171,11 @@ def run(check):
             sig = [e["seq"] for e in ev if e["kind"] == "signal" and e.get("data") == "cancel"]
             closes = [e["seq"] for e in ev if e["kind"] == "conn-close" and starts and e.get("conn") == starts[0].get("conn")]
             ends = [e for e in ev if e["kind"] == "exec-end" and starts and e.get("conn") == starts[0].get("conn") and not (e.get("data") or {}).get("aborted")]
-            if starts and closes and not (ends and ends[0]["seq"] < closes[0] and (not sig or ends[0]["seq"] < sig[0])):
+            # the property speaks about plugins that are executing when the run is cancelled - here: when the close is requested;
+            # an execution that the step itself had already ended (and closed) before that is not this check's business
+            fc = [e["seq"] for e in ev if e["kind"] == "act-call" and e["src"] == "force_close"]
+            open_at_close = bool(starts and fc and starts[0]["seq"] < fc[0] and (not closes or closes[0] > fc[0]))
+            if open_at_close and closes and not (ends and ends[0]["seq"] < closes[0] and (not sig or ends[0]["seq"] < sig[0])):
                 if not sig or sig[0] > closes[0]:
                     check.report("signal@missing:provider", "provider driven directly (%s, %s): the plugin was executing when the step was stopped and closed, it declares the cancel handler, but its connection was closed (seq %d) without a cancel signal before" % (
                         c["_sn"], c["_seq"], closes[0]), {"case": {k: v for k, v in c.items() if not k.startswith("_")}, "events": [(e["seq"], e["kind"], e["src"]) for e in ev][:60]})
